@@ -9,7 +9,7 @@ for l in open('/verif/properties.jsonl'):
 print(f"""You are working in a scratch git worktree of the falconry/falcon repository (a Python WSGI/ASGI web framework) at {wt}. Work ONLY inside {wt}. Never read or modify /repo, /verif, or any other directory outside {wt} (reading /venv and the Python standard library is fine). There is no network.
 
 Run Python as:   cd {wt} && PYTHONPATH={wt} /venv/bin/python ...
-Run the test suite as:   cd {wt} && PYTHONPATH={wt} /venv/bin/python -m pytest -q -p no:cacheprovider --timeout=900 --continue-on-collection-errors -x -q tests
+Run the test suite as:   cd {wt} && PYTHONPATH={wt} /venv/bin/python -m pytest -q -p no:cacheprovider --timeout=900 --continue-on-collection-errors tests
 (it takes about a minute; on the unchanged tree it gives 3440 passed and one pre-existing collection error in tests/test_uri_templates.py, which you must ignore). Check `python -c "import falcon.app; print(falcon.app.__file__)"` prints a path under {wt}.
 
 TASK. Here is a semantic property that falcon is supposed to satisfy:
